@@ -12,9 +12,15 @@ package priority_queue
 //@   option no-alloc
 //@   ensures result == len(pq.pq)
 
+// Push (container/heap.Push: append, sift up): a new item carrying the value and the priority is in the queue, the
+// items queued before stay queued (in some order). Trusted.
+//
 //@ func (*Queue[V, P]).Push
 //@   trusted
-//@   modifies pq.pq
+//@   modifies pq.pq, pq.pq[*]
+//@   ensures result != nil && fresh(result) && result.object == value && result.priority == priority
+//@   ensures len(pq.pq) == old(len(pq.pq))+1 && existsIn(0, len(pq.pq), func(i int) bool { return pq.pq[i] == result })
+//@   ensures forallIn(0, len(pq.pq), func(i int) bool { return pq.pq[i] == result || existsIn(0, old(len(pq.pq)), func(j int) bool { return pq.pq[i] == old(pq.pq[j]) }) })
 
 // Pop (container/heap.Pop: swap root and last, sift down, cut the last): the object of the old root item is returned,
 // one item leaves, the remaining items are items that were queued before (in some order). Trusted.
@@ -31,9 +37,13 @@ package priority_queue
 //@ func (*Queue[V, P]).Peek
 //@   trusted
 
+// PeekPriority: the priority of the root item (the least one; only "it is the root's" is stated). Trusted.
+//
 //@ func (*Queue[V, P]).PeekPriority
 //@   trusted
 //@   option no-alloc
+//@   requires len(pq.pq) > 0
+//@   ensures result == pq.pq[0].priority
 
 //@ func (*Queue[V, P]).Update
 //@   trusted
